@@ -368,7 +368,7 @@ func c04(c *Ctx) {
 					}
 					c.R.Check(fromFetch, load.FuncName(rf)+": ExtraResources[name]= from Fetch", c.pos(mu.Pos()), "the value stored is the Fetch result", "a value other than the Fetch result is supplied as extra resource")
 					if reset != nil {
-						c.R.Check(reset.Block().Dominates(mu.Block()) && cfgx.ReachesInIteration(reset, mu), load.FuncName(rf)+": reset before fill", c.pos(mu.Pos()), "the map is re-created before it is filled", "ExtraResources is filled before it is re-created")
+						c.R.Check(cfgx.MustPass(reset.Block(), mu.Block()) && cfgx.ReachesInIteration(reset, mu), load.FuncName(rf)+": reset before fill", c.pos(mu.Pos()), "the map is re-created before it is filled", "ExtraResources is filled before it is re-created")
 					}
 					if fetch != nil {
 						sel := cfgx.CallArgs(fetch)[1]
